@@ -205,7 +205,37 @@ def body_sde(case):
     path = cs.simulate_one_path_with_coupling()
     dp = captured["p"]
     val = np.asarray(path.value(), dtype=float)
-    for row, name, mu in ((0, "fine", cs.mc_drift_h), (1, "coarse", cs.mc_drift_2h)):
+    # reference chains built independently of the coupling: same construction, grid refined level (fine) and level-1
+    # (coarse) times, fresh chain on it
+    from rpylib.process.markovchain.markovchain import MarkovChainProcess
+    from rpylib.process.markovchain.markovchainlevycopula import MarkovChainLevyCopula
+
+    def ref_chain(k):
+        _, g, mth, drv = _build(case)
+        for _ in range(k):
+            g.refine()
+        pr = MarkovChainProcess(model=drv, method=mth, grid=g) if d == 1 else \
+            MarkovChainLevyCopula(levy_copula_model=drv, grid=g, method=mth)
+        pr.initialisation(product)
+        return pr
+
+    refs = {"fine": ref_chain(case["levels"]), "coarse": ref_chain(case["levels"] - 1)}
+    mus = {}
+    for name, got in (("fine", cs.mc_drift_h), ("coarse", cs.mc_drift_2h)):
+        mus[name] = np.asarray(refs[name].process_drift(), dtype=float)
+        if not np.allclose(np.asarray(got, dtype=float).ravel(), mus[name].ravel(), rtol=1e-10, atol=1e-13):
+            out.append(Violation(f"{tag}/{name}/driver-drift-is-not-that-of-a-fresh-chain-on-the-level-grid",
+                                 f"level {case['levels']}: coupling uses {np.ravel(got)}, fresh chain {mus[name].ravel()}; {detail}"))
+    if d == 1:
+        sf, sc_ = (float(refs[n].equivalent_diffusion_coefficient) for n in ("fine", "coarse"))
+        dWs = np.diff(np.asarray(dp.diffusion_path, dtype=float), axis=1)
+        if not np.allclose(dWs[0] * sc_, dWs[1] * sf, rtol=1e-10, atol=1e-14 * (abs(sf) + abs(sc_))):
+            out.append(Violation(f"{tag}/coupled/diffusion-increments-are-not-sigma_fine-and-sigma_coarse-times-one-brownian-path",
+                                 f"level {case['levels']}: fine/coarse increments {dWs[:, :3].tolist()}, fresh chains' "
+                                 f"coefficients {sf!r} / {sc_!r}; {detail}"))
+    if out:
+        return out
+    for row, name, mu in ((0, "fine", mus["fine"]), (1, "coarse", mus["coarse"])):
         X_lib = x0.reshape(m, 1) + val[row].reshape(m, -1)
         check_component(name, dp.jump_times, np.asarray(dp.jump_path)[row], np.asarray(dp.diffusion_path)[row], mu, X_lib)
     out.append(Violation(f"LABEL:coupled-steps={'<3' if len(dp.jump_times) < 4 else '>=3'}"))
@@ -295,7 +325,7 @@ SUBCHECKS = [
                   "DiagX, Libor-type sigma*x) x initial values x levels 0 (single process) / 1..2 (coupled pair): "
                   "captured driver path -> harness Euler recursion step by step, plus closed forms for constant and "
                   "diagonal coefficients; non-trivial = >= 3 driver steps (single: with >= 1 jump)",
-             strategy=strat_sde, budget={"quick": 160, "thorough": 2400}, shards={"quick": 16, "thorough": 16}),
+             strategy=strat_sde, budget={"quick": 480, "thorough": 6000}, shards={"quick": 16, "thorough": 16}),
     SubCheck("discount-factors", body_df, classify_df,
              rule="LevyForwardModel / LevyLiborModel with 1..6 periods, rates >= 0 (incl. 0), increasing tenors: df(0)=1, "
                   "positive, non-increasing on a 41-point mesh united with every tenor and its float neighbours, "
